@@ -246,6 +246,11 @@ EndedGone(S, T) ==
 
 ---------------------------------------------------------------------------
 (* all failures of one recorded step; rec carries the verdicts computed in Go *)
+(* A logged-in user may send PASS services=.. and SERVER and thereby turns into a services link that still has a   *)
+(* nickname and channel memberships (its prefix becomes the server name). The recipient and privilege predicates  *)
+(* are stated for clients and for proper links; they are not evaluated while such a hybrid session exists.        *)
+HasHybrid(st) == \E x \in DOMAIN st.ss : st.ss[x].rid = 0 /\ st.ss[x].sv /\ st.ss[x].li
+
 PropFailures(S, e, T, out, rec) ==
   LET F(p, name, ok) == IF ok THEN {} ELSE {<<p, name>>}
       (* the predicates below use tolerant lookups; only a nickname index that points outside the *)
@@ -256,7 +261,7 @@ PropFailures(S, e, T, out, rec) ==
   StateInvFailures(T)
   \cup F("C14", "SessionLimitKept", LimitsKept(S, T))
   \cup F("C14", "ChannelLimitKept", ChannelLimitKept(S, T))
-  \cup (IF okS /\ okT /\ ~rec.panic
+  \cup (IF okS /\ okT /\ ~rec.panic /\ ~HasHybrid(S) /\ ~HasHybrid(T)
         THEN F("C12", "RecipientsEntitled", RecipientsEntitled(S, T, e, out))
              \cup F("C12", "PrefixIsSender", PrefixIsSender(S, T, e, out))
              \cup PrivFailures(S, T, e, out)
